@@ -132,6 +132,39 @@ def attach_replays(keys, events, setup):
         info["events"] = [{x: e[x] for x in e if x != "obs"} for e in evs]
 
 
+def decorate(behs, rnd, params):
+    """environment events the model treats as stuttering are woven into a share of the generated
+    behaviours: a restart of a wallet process (reopen) and a node outage around a refresh; the trace
+    spec judges them (TReopen: the store is found as left; a refresh during an outage changes nothing)"""
+    share = params.get("decorate_share", 0.34)
+    out = []
+    for b in behs:
+        if not b or rnd.random() >= share:
+            out.append(b)
+            continue
+        b2 = list(b)
+        kind = rnd.choice(["reopen", "reopen", "outage"])
+        ws = sorted(set(e.get("w") for e in b2 if e.get("w") in ("w1", "w2"))) or ["w1"]
+        if kind == "reopen":
+            pos = rnd.randrange(0, len(b2) + 1)
+            w = rnd.choice(ws)
+            ins = [{"ev": "reopen", "w": w}]
+            # the active account is per process: restore it so that the rest of the behaviour means the same
+            act = None
+            for e in b2[:pos]:
+                if e.get("ev") == "set_active" and e.get("w") == w:
+                    act = e.get("label")
+            if act and act != "default":
+                ins.append({"ev": "set_active", "w": w, "label": act})
+            b2[pos:pos] = ins
+        else:
+            pos = rnd.randrange(0, len(b2) + 1)
+            w = rnd.choice(ws)
+            b2[pos:pos] = [{"ev": "node_down"}, {"ev": "refresh", "w": w}, {"ev": "node_up"}]
+        out.append(b2)
+    return out
+
+
 def run(prop, tier, params, t0):
     rnd = random.Random(seed())
     build_s = build_harness(["replay_wallet"])
@@ -149,7 +182,7 @@ def run(prop, tier, params, t0):
             seen.add(s)
             cexb.append(c["hist"])
     extra = params.get("extra_behaviours", [])
-    behaviours = cexb + extra + chosen
+    behaviours = cexb + extra + decorate(chosen, rnd, params)
     setup = params["setup"]
     log("  replaying %d behaviours on the real code (%d model counter-examples, %d scripted, %d of %d generated)" % (
         len(behaviours), len(cexb), len(extra), len(chosen), len(all_b)))
